@@ -89,26 +89,6 @@ theorem reserve_bridge {v : Vec} {alT add : Nat} (xs : List Nat) (hlen : v.len =
       (by simp only [smallBound] at hc hadd ⊢; omega), Vec.setCapacity_cap]
   · rw [if_neg h, if_neg h]
 
-theorem LocalVec.setCapacity {v : Vec} {L : List Nat} (h : LocalVec v L) (n : Nat)
-    (hn : L.length ≤ n) : LocalVec (v.setCapacity n) L := by
-  unfold Vec.setCapacity
-  split
-  · exact h
-  · obtain ⟨e1, rest, e2⟩ := h
-    have hge := roundCap_ge v.h.esz n
-    refine ⟨e1, (rest ++ uninits (roundCap v.h.esz n - v.cap)).take (roundCap v.h.esz n - L.length), ?_⟩
-    simp only [e2, List.append_assoc]
-    rw [List.take_append]
-    simp only [List.length_map]
-    rw [List.take_of_length_le (by simp; omega)]
-
-theorem LocalVec.reserve {v : Vec} {L : List Nat} (h : LocalVec v L) (add : Nat) :
-    LocalVec (v.reserve add) L := by
-  unfold Vec.reserve
-  split
-  · exact h.setCapacity _ (by rw [h.1]; omega)
-  · exact h
-
 /-- header fields that no operation changes (the prefix value and the buffer may be replaced by
 the conversions) -/
 structure HdrKeep (h h' : Hdr) : Prop where
